@@ -50,6 +50,17 @@ CLAIMS = {
          "(via C02_parse); C05_meaning for all line lists. Tie: listing of files with/without inserted nasty comment lines."),
    technique="Coq proof (case analysis of the line parser in an arbitrary state; simulation over line meanings) + differential correspondence",
    ref="6 (C05)"),
+ "C06": dict(
+   text=("Theorems over the model of the gate and the layered readers, for all trees, parameters and callbacks: C06_gate (the "
+         "callback is asked about exactly the consulted path before the file is opened; a file is used only if accepted; a "
+         "rejection gives ECONF_PARSING_CALLBACK_FAILED and the file is not opened), C06_history (every opened file was accepted "
+         "immediately before; the consulted files are exactly the files opened, in processing order, each with its own path; any "
+         "rejection fails the read), C06_readDirs/readConfig/readFile/history_rejected (callback code, no entries / NULL, no "
+         "history), C06_readDirs_order, C06_readConfig_order. Tie: the implementation's real callback log (paths, verdicts, data "
+         "pointer) and fopen log (link-time --wrap) against the model's event trace on random trees x rejection policies; "
+         "independent oracle on the logs."),
+   technique="Coq proof (event-trace invariants by induction over layers and files) + differential correspondence with callback and fopen interception",
+   ref="6 (C06)"),
  "C07": dict(
    text=("Theorem C07_roundtrip: for EVERY writable object (the Coq predicate `writable` = DESIGN.md 5.4: delimiter tag =, : or "
          "space, comment tag # or ;, keys/sections of the grammar, values quoted or plain with indented delimiter-free "
@@ -101,6 +112,34 @@ CLAIMS = {
          "reader), no separate theorem yet."),
    technique="Coq proof (line lemmas + induction over the prefix) + generated source tables + differential correspondence",
    ref="6 (C13)"),
+ "C15": dict(
+   text=("Theorems: C15_options_ok (every option string of documented items — any order, repeated — is accepted and each item has "
+         "its documented effect, a repeated item acting as its last occurrence: tokenizer model = fold of item meanings), "
+         "C15_options_unknown, C15_options_absent, C15_option_names (the names the source recognises, regenerated each run), "
+         "C15_join (for every entry list: the value lines of a key under JOIN_SAME_ENTRIES are those of all its definitions since "
+         "its last empty one), C15_nojoin_first, C15_python_indented (in every state directly after an entry an indented line "
+         "continues the value with indentation removed whatever delimiters/comment characters it contains). Partial: the python "
+         "key-line grammar as a whole has no file-level theorem; it is covered by the correspondence runs."),
+   technique="Coq proof (split/join inverse for the tokenizer; fold characterisation of the join pass; line lemma for python continuation) + generated option names + differential correspondence",
+   ref="5.2, 6 (C15)"),
+ "C16": dict(
+   text=("Theorems: C16_refuse (a file violating an active owner / group / no-symlink rule is refused with the specific code "
+         "before the callback is asked and before it is opened), C16_unaffected (files satisfying the rules are read exactly as "
+         "without rules), C16_every_opened_file / C16_readDirs / C16_readConfig (every file any layered read opens satisfies the "
+         "rules in force — all trees, parameters, entry points), C16_reset, C16_single_entrance (regenerated call-site "
+         "inventory: the parser is entered only through the gate). Partial: lstat semantics, lstat/fopen races and symlinked "
+         "directories are file-system behaviour outside the model. Tie: real chown/symlink trees (run as root), fopen log."),
+   technique="Coq proof over the gate model + generated call-site inventory + differential correspondence on real ownership/symlink trees",
+   ref="6 (C16)"),
+ "C17": dict(
+   text=("Theorems: C17_block (for any preceding state without pending comment: a comment block of any length directly before a "
+         "key line, the key line and its continuation lines produce an entry carrying the 1-based number of its LAST physical "
+         "line, exactly that block's text, the line's trailing comment and the value lines), C17_ext (the extended getter hands "
+         "out what the first entry of the key carries, with the object's path), C17_value_lines, C17_path_single / _relative / "
+         "_merged. Together with C02_parse (parsed file = expected entries) this gives the property for all conventional files. "
+         "Tie: ext values of every key and path queries on grammar-generated files read by absolute and relative name."),
+   technique="Coq proof (fold lemmas over line meanings, on top of the parser theorem) + differential correspondence",
+   ref="6 (C17)"),
  "C10": dict(
    text=("Theorems C10_readonly / C10_sequences / C10_later_results / C10_merge_inputs: in the model every query (failing ones "
          "included), any finite sequence of them, and a merge leave the object(s) unchanged, for all objects. The model is tied "
